@@ -668,6 +668,54 @@ fn borrowed_family(sink: &mut dyn Sink) {
     bbytes::run(sink, "&[u8] (bytes)", &[BBytes(&[]), BBytes(&[0]), BBytes(&b24)]);
 }
 
+/// A sequence written with unknown length on both sides (native: ArrayIter over a filter iterator; serde: collect_seq).
+#[derive(Debug, Clone, PartialEq)]
+pub struct FilterSeq(pub Vec<u8>);
+impl<C> minicbor::Encode<C> for FilterSeq {
+    fn encode<W: minicbor::encode::Write>(&self, e: &mut minicbor::Encoder<W>, ctx: &mut C) -> Result<(), minicbor::encode::Error<W::Error>> {
+        minicbor::encode::ArrayIter::new(self.0.iter().filter(|_| true)).encode(e, ctx)
+    }
+}
+impl<'b, C> minicbor::Decode<'b, C> for FilterSeq {
+    fn decode(d: &mut minicbor::Decoder<'b>, ctx: &mut C) -> Result<Self, minicbor::decode::Error> {
+        Vec::<u8>::decode(d, ctx).map(FilterSeq)
+    }
+}
+impl Serialize for FilterSeq {
+    fn serialize<S: serde::Serializer>(&self, s: S) -> Result<S::Ok, S::Error> {
+        s.collect_seq(self.0.iter().filter(|_| true))
+    }
+}
+impl<'de> Deserialize<'de> for FilterSeq {
+    fn deserialize<D: serde::Deserializer<'de>>(d: D) -> Result<Self, D::Error> {
+        Vec::<u8>::deserialize(d).map(FilterSeq)
+    }
+}
+
+/// A map written with unknown length on both sides (native: MapIter over a filter iterator; serde: collect_map).
+#[derive(Debug, Clone, PartialEq)]
+pub struct FilterMap(pub BTreeMap<u8, u8>);
+impl<C> minicbor::Encode<C> for FilterMap {
+    fn encode<W: minicbor::encode::Write>(&self, e: &mut minicbor::Encoder<W>, ctx: &mut C) -> Result<(), minicbor::encode::Error<W::Error>> {
+        minicbor::encode::MapIter::new(self.0.iter().filter(|_| true)).encode(e, ctx)
+    }
+}
+impl<'b, C> minicbor::Decode<'b, C> for FilterMap {
+    fn decode(d: &mut minicbor::Decoder<'b>, ctx: &mut C) -> Result<Self, minicbor::decode::Error> {
+        BTreeMap::<u8, u8>::decode(d, ctx).map(FilterMap)
+    }
+}
+impl Serialize for FilterMap {
+    fn serialize<S: serde::Serializer>(&self, s: S) -> Result<S::Ok, S::Error> {
+        s.collect_map(self.0.iter().filter(|_| true))
+    }
+}
+impl<'de> Deserialize<'de> for FilterMap {
+    fn deserialize<D: serde::Deserializer<'de>>(d: D) -> Result<Self, D::Error> {
+        BTreeMap::<u8, u8>::deserialize(d).map(FilterMap)
+    }
+}
+
 // ---- C18: shared data model -----------------------------------------------------------------
 
 fn shared<T>(sink: &mut dyn Sink, name: &str, values: Vec<T>)
@@ -818,14 +866,30 @@ fn all_indefinite(i: &Item) -> Item {
 pub fn run_c18(sink: &mut dyn Sink) {
     shared_borrowed_types(sink);
     shared(sink, "bool", vec![false, true]);
-    shared(sink, "u8", vec![0u8, 23, 24, 255]);
-    shared(sink, "u16", vec![0u16, 255, 256, u16::MAX]);
-    shared(sink, "u32", vec![0u32, 65536, u32::MAX]);
-    shared(sink, "u64", vec![0u64, 1 << 32, u64::MAX]);
-    shared(sink, "i8", vec![0i8, -1, -24, -25, i8::MIN, i8::MAX]);
-    shared(sink, "i16", vec![-129i16, -257, i16::MIN, i16::MAX]);
-    shared(sink, "i32", vec![-65537i32, i32::MIN, i32::MAX]);
-    shared(sink, "i64", vec![-(1i64 << 32) - 1, i64::MIN, i64::MAX]);
+    // every value on both sides of every head-width boundary that fits the type
+    fn ints<T: TryFrom<i128>>() -> Vec<T> {
+        let mut v = Vec::new();
+        for k in [0i128, 1, 23, 24, 25, 255, 256, 257, 65535, 65536, 65537, 0xffff_ffff, 0x1_0000_0000, 0x1_0000_0001, i64::MAX as i128, u64::MAX as i128] {
+            for x in [k, -k, -k - 1, -k - 2] {
+                if let Ok(t) = T::try_from(x) {
+                    v.push(t);
+                }
+            }
+        }
+        v
+    }
+    shared(sink, "u8", ints::<u8>());
+    shared(sink, "u16", ints::<u16>());
+    shared(sink, "u32", ints::<u32>());
+    shared(sink, "u64", ints::<u64>());
+    shared(sink, "i8", ints::<i8>());
+    shared(sink, "i16", ints::<i16>());
+    shared(sink, "i32", ints::<i32>());
+    shared(sink, "i64", ints::<i64>());
+    shared(sink, "Vec<i32>", vec![ints::<i32>()]);
+    // containers of unknown length: native ArrayIter / MapIter over an inexact iterator, serde collect_seq / collect_map
+    shared(sink, "FilterSeq", vec![FilterSeq(vec![]), FilterSeq(vec![1, 24]), FilterSeq((0..30).collect())]);
+    shared(sink, "FilterMap", vec![FilterMap(BTreeMap::new()), FilterMap([(1u8, 2u8), (24, 255)].into_iter().collect())]);
     shared(sink, "char", vec!['\0', 'a', '\u{d7ff}', '\u{10ffff}']);
     shared(sink, "f32", vec![0.0f32, -0.0, 1.5, f32::MAX, f32::INFINITY]);
     shared(sink, "f64", vec![0.0f64, -0.0, 1.5, f64::MIN_POSITIVE, f64::NEG_INFINITY]);
